@@ -292,7 +292,7 @@ def run_harness(binp, requests, shards=NCPU, timeout=600, tag="h"):
         for p, (rc, txt, dt) in zip(files, ex.map(one, files)):
             nreq = sum(1 for _ in open(p, encoding="utf-8"))
             got = 0
-            for line in txt.splitlines():
+            for line in txt.split("\n"):      # not splitlines(): U+2028, U+0085, FF, VT inside a JSON string are not line ends
                 if not line.startswith("{"):
                     continue
                 try:
@@ -360,7 +360,7 @@ def run_driver(binp, checker, sexps, tag="d", timeout=900):
     failing, errors = [], []
     with ThreadPoolExecutor(shards) as ex:
         for i, (p, (rc, txt, dt)) in enumerate(zip(files, ex.map(one, files))):
-            answers = txt.splitlines()
+            answers = [a for a in txt.split("\n") if a != ""]
             idxs = list(range(i, n, shards))
             if rc != 0 or len(answers) != len(idxs):
                 errors.append({"shard": p, "rc": rc, "answers": len(answers), "expected": len(idxs), "tail": txt[-500:]})
